@@ -339,6 +339,23 @@ def run(pid, tier, seed, gate, replay=None):
             ops += ["close", "idxdump", "reopen"] + [f"sload k={k}" for k in range(1, n + 1)] + [f"get k={k}" for k in range(1, n + 1)]
             hs.append(H.cfg_line(policy="woi", algo="fifo", mem=1, univ=n + 1, block=2097152, blocks=4, index=4096)
                       + "\n" + "\n".join(ops) + "\n")
+        # clear() while the flusher's open blob does not start at offset 0 of its block (the first blob of the block was sealed
+        # with a full index): what is written afterwards must start the - now clean - block over, or recovery will not find it
+        for i in range(2 if tier == "thorough" else 1):
+            n = rng.choice([200, 240])
+            ops, ver = [], 1
+            for k in range(1, n + 1):
+                ops.append(f"ins k={k} ver={ver} size=3000"); ver += 1
+                if k % 7 == 0:
+                    ops.append("wait")
+            ops += ["wait", "clear"]
+            new = list(range(n + 1, n + 1 + rng.choice([3, 10])))
+            for k in new:
+                ops.append(f"ins k={k} ver={ver} size=3000"); ver += 1
+            ops += ["wait"] + [f"get k={k}" for k in new]
+            ops += ["close", "idxdump", "reopen"] + [f"sload k={k}" for k in new] + [f"get k={k}" for k in new]
+            hs.append(H.cfg_line(policy="woi", algo="fifo", mem=1, univ=n + 12, block=2097152, blocks=4, index=4096)
+                      + "\n" + "\n".join(ops) + "\n")
         e2e_n = len(hs)
         for j, (sc, (cfgl, lines)) in enumerate(zip(hs, H.run_many(hs))):
             o = H.oracle_c01(cfgl, lines)
